@@ -21,6 +21,14 @@ impl Rng {
     pub fn range(&mut self, lo: usize, hi_incl: usize) -> usize {
         lo + self.below(hi_incl - lo + 1)
     }
+    /// an exception code: mostly one of those the Modbus documents define, sometimes any byte
+    pub fn exc_code(&mut self) -> u8 {
+        if self.chance(1, 5) {
+            self.u8()
+        } else {
+            *self.pick(&[0x01u8, 0x02, 0x03, 0x04, 0x05, 0x06, 0x07, 0x08, 0x0A, 0x0B])
+        }
+    }
     pub fn u8(&mut self) -> u8 {
         self.next() as u8
     }
